@@ -86,3 +86,9 @@ Fixpoint zlist_eqb' (a b : list Z) : bool :=
 Definition check_sync (r : Z) : bool :=
   (sync_i16 r =? r) && zlist_eqb' (f32_parts (sync_f32 r)) (f32_parts (z32 r)).
 Definition check_all_sync : bool := forallb check_sync all_i16.
+
+(* the word written at column col of a row whose sync word is r, when the whitening step maps the
+   float64 value x of a voltage column to (whiten x): the step only touches columns < ncv
+   (Model.whitened_column) *)
+Definition out_word (ncv col : Z) (whiten : f64 -> f64) (r : Z) : Z :=
+  i16wrap (trunc64 (if (0 <=? col) && (col <? ncv) then whiten (sync_f64 r) else sync_f64 r)).
